@@ -126,6 +126,8 @@ class StmtMixin:
         raise Unsupported(f"attribute store on {obj!r}")
 
     def setitem(self, obj, idx, v):
+        if isinstance(obj, (PyDict, PyList)):
+            self.check_mut(obj)
         if isinstance(obj, PyDict):
             obj.items[self.hashable(idx)] = v
             return
